@@ -1,5 +1,6 @@
 import LarkVerif.Transform
 import LarkVerif.TransformEmbed
+import LarkVerif.TransformInPlace
 /-! # C16 — embedded transformer equals transforming afterwards; variants agree -/
 namespace Props.C16
 open ShapeProto EmbedProto
@@ -21,5 +22,13 @@ theorem nonrecursive_eq_recursive {V : Type} (f : Nat → List V → V) (g : Nat
 /-- the stack machine visits children before parents and each node exactly once: its instruction list is the post-order of the tree -/
 theorem stack_machine_postorder {V : Type} (f : Nat → List V → V) (g : Nat → V) (F : TrProto.Forest) (st : List V) :
     TrProto.runStack f g (TrProto.postOrder F) st = (TrProto.tr f g F).reverse ++ st := TrProto.runStack_postfix f g F st
+
+/-- **`Transformer_InPlace` = `Transformer`**: whatever order the in-place walk processes the subtrees in — as long as a node comes after its child
+    subtrees, which `iter_subtrees` guarantees and the correspondence observes on every call log — the value returned for the root is the recursive
+    transformer's. -/
+theorem inplace_eq_recursive {V : Type} (f : Nat → List V → V) (g : Nat → V) (d : Nat) (kids : TrProto.Forest) (kids' : TrProto.MF V) (vs : List V)
+    (hrun : TrProto.Steps f g (TrProto.MF.ofForest (.node d kids .nil)) (.node d (some vs) kids' .nil)) :
+    [f d vs] = TrProto.tr f g (.node d kids .nil) :=
+  TrProto.inplace_eq_recursive f g d kids kids' vs hrun
 
 end Props.C16
